@@ -37,6 +37,12 @@ def shards(tier, seed):
         for i in range(8):
             out.append({"id": "sched1-%d" % i, "kind": "sched1", "pairs": pairs[i::8], "maxpoints": 260})
         out.append({"id": "sched2", "kind": "sched2", "pairs": fixed[:4], "stride": 16})
+        cold = [("ExtendedCopy5", "ExtendedCopy5"), ("ExtendedCopy4", "ExtendedCopy4"), ("PersistentReserveOut", "PersistentReserveOut"),
+                ("Inquiry", "Read10"), ("ModeSelect10", "ModeSense10"), ("ReadElementStatus", "ReadElementStatus")]
+        for i in range(3):
+            out.append({"id": "cold-%d" % i, "kind": "cold", "pairs": cold[i::3], "points": 14})
+        out.append({"id": "cold-xcopy5", "kind": "cold", "pairs": [("ExtendedCopy5", "ExtendedCopy5")], "points": 48})
+        out.append({"id": "cold-xcopy4", "kind": "cold", "pairs": [("ExtendedCopy4", "ExtendedCopy4")], "points": 48})
         out.append({"id": "sched-rand", "kind": "schedrand", "n": 300})
     else:
         for i in range(0, 42, 3):
@@ -57,6 +63,9 @@ def shards(tier, seed):
         for i in range(8):
             out.append({"id": "sched-rand-%d" % i, "kind": "schedrand", "n": 2500})
         out.append({"id": "stress", "kind": "stress", "n": 100000})
+        same = [(n, n) for n in names]
+        for i in range(14):
+            out.append({"id": "cold-%d" % i, "kind": "cold", "pairs": same[i::14] + [allpairs[(i * 131 + 7) % len(allpairs)]], "points": 60})
     return out
 
 
@@ -66,13 +75,31 @@ def fixed_args(c, salt=0):
 
     rng = random.Random("c09args:%s:%s" % (c.name, salt))
     if c.custom:
-        return DO.GEN[c.custom](rng)[0]
+        a = DO.GEN[c.custom](rng, ("counts", 2, 2, 0) if c.custom.startswith("xcopy") and salt >= 100 else "rand")[0]
+        if salt >= 100 and c.custom.startswith("xcopy"):
+            by_name(a, 4 if c.custom == "xcopy4" else 5, DO)
+        return a
     a = harness.random_args(c, rng, cap=2048)
     # make every int field non-zero so a lost field is visible
     for k, (kind, width, d) in c.args.items():
         if kind == "u" and width > 1 and not a.get(k):
             a[k] = 1
     return a
+
+
+def by_name(a, spc, DO):
+    """give every code of an EXTENDED COPY argument set by its table name / description (a documented input form)"""
+    kw = a["_kwargs"]
+    descr = {0x00: "Direct access block device (e.g., magnetic disk)", 0x01: "Sequential access device (e.g., magnetic tape)", 0x03: "Processor device",
+             0x05: "CD/DVD device", 0x0E: "Simplified direct access device (e.g., magnetic disk)", 0x04: "Write-once device (e.g., some optical disks)",
+             0x07: "Optical memory device (e.g., some optical disks)"}
+    for d in kw["target_descriptor_list" if spc == 4 else "cscd_descriptor_list"]:
+        d["descriptor_type_code"] = "Identification descriptor target descriptor" if spc == 4 else "Identification Descriptor CSCD descriptor"
+        if isinstance(d["peripheral_device_type"], int):
+            d["peripheral_device_type"] = descr[d["peripheral_device_type"]]
+    for d in kw["segment_descriptor_list"]:
+        if isinstance(d["descriptor_type_code"], int):
+            d["descriptor_type_code"] = DO.SEG_NAMES[d["descriptor_type_code"]][0]
 
 
 def observe(c, a):
@@ -110,6 +137,8 @@ def run(shard, ctx):
         for A in names:
             for B in names:
                 seq_history(ctx, S, base, args, (A, B))
+        base_class_and_derived(ctx, S, base, args)
+        discarded_buffers(ctx, S)
     elif kind == "triples":
         if shard["firsts"] is None:
             rng = ctx.rng()
@@ -126,6 +155,8 @@ def run(shard, ctx):
         sched_runs(ctx, S, shard, base, args)
     elif kind == "stress":
         stress(ctx, S, shard, base, args)
+    elif kind == "cold":
+        cold_runs(ctx, shard)
 
 
 def seq_history(ctx, S, base, args, seq):
@@ -158,6 +189,103 @@ def seq_history(ctx, S, base, args, seq):
             ctx.fail("C09:sequential.command_object_changed", "%s's cdb/buffers changed after building %s" % (A, seq[-1]), wit)
     except Exception as e:  # noqa: BLE001
         ctx.fail("C09:sequential.raises.%s" % type(e).__name__, "history %r raised %s: %s" % (seq, type(e).__name__, e), wit, exc=e)
+
+
+def base_class_and_derived(ctx, S, base, args):
+    """histories that also use the generic base class (as older code did: SCSICommand.unmarshall_cdb) and a command
+    class derived by the user from a shipped one with an extended layout"""
+    from pyscsi.pyscsi.scsi_command import SCSICommand
+
+    names = list(S.COMMANDS)
+    for A in names:
+        cA = S.COMMANDS[A]
+        if base[A] is None:
+            continue
+        wit = {"history": ["SCSICommand.unmarshall_cdb/marshall_cdb (base class)", A]}
+        ctx.case(("seq-base", A), True)
+        ctx.count("sequential_histories")
+        try:
+            SCSICommand.unmarshall_cdb(bytearray(base[A][0]))
+            try:
+                SCSICommand.marshall_cdb({"opcode": cA.op})
+            except Exception:  # noqa: BLE001
+                pass
+            _cmd, obs = observe(cA, args[A])
+            if obs != base[A]:
+                ctx.fail("C09:sequential.depends_on_base_class_use", "%s built after the base class was used for decoding differs from its solo baseline" % A, wit)
+        except Exception as e:  # noqa: BLE001
+            ctx.fail("C09:sequential.raises.%s" % type(e).__name__, "history %r raised %s" % (wit["history"], e), wit, exc=e)
+    # a derived class with one more field, used after / before its parent
+    for A in ("Read10", "Inquiry", "Write16", "ModeSense6", "SynchronizeCache16"):
+        cA = S.COMMANDS[A]
+        parent = cA.load()
+        for order in ("parent_first", "child_first"):
+            extra_byte = cA.length - 1  # CONTROL byte: unused by the parent's layout
+
+            class Child(parent):
+                _cdb_bits = dict(parent._cdb_bits, vendor_control=[0xC0, extra_byte])
+
+            wit = {"history": [A, "class derived from %s with one more field" % A], "order": order}
+            ctx.case(("seq-derived", A, order), True)
+            ctx.count("sequential_histories")
+            try:
+                if order == "parent_first":
+                    observe(cA, args[A])
+                fields = dict(base[A][3])
+                fields["vendor_control"] = 2
+                b = bytes(Child.marshall_cdb(fields))
+                d = Child.unmarshall_cdb(bytearray(b))
+                if d.get("vendor_control") != 2 or b[extra_byte] != 0x80 or b[:extra_byte] != base[A][0][:extra_byte]:
+                    ctx.fail("C09:sequential.derived_class_uses_other_layout", "a class derived from %s (%s) encodes %s / decodes vendor_control=%r" % (A, order, b.hex(), d.get("vendor_control")), wit)
+                _cmd, obs = observe(cA, args[A])
+                if obs != base[A]:
+                    ctx.fail("C09:sequential.parent_changed_by_derived_class", "%s differs from its solo baseline after a derived class was used" % A, wit)
+            except Exception as e:  # noqa: BLE001
+                ctx.fail("C09:sequential.raises.%s" % type(e).__name__, "derived-class history raised %s" % e, wit, exc=e)
+
+
+def discarded_buffers(ctx, S):
+    """<build A; keep A.datain; discard A; build B of the same size>: the kept buffer is neither handed to B nor changed"""
+    import gc
+
+    from vmon import harness
+
+    for name in ("Read10", "Read16", "Inquiry", "ReportLuns", "ReadCd", "ModeSense10"):
+        c = S.COMMANDS[name]
+        for size in (96, 512, 4096, 65536, 1 << 20):
+            if c.xfer == "read":
+                a = {"blocksize": 512, "lba": 5, "tl": size // 512}
+                if size < 512 or size // 512 >= 1 << c.args["tl"][1]:
+                    continue
+            elif c.xfer == "readcd":
+                if size % 3072:
+                    continue
+                a = {"lba": 0, "tl": size // 3072}
+            else:
+                an = [k for k, v in c.args.items() if v[0] == "alloc"][0]
+                if size >= 1 << c.args[an][1]:
+                    continue
+                a = {k: 0 for k, v in c.args.items() if v[2] is S.REQ and v[0] == "u"}
+                a[an] = size
+            ctx.case(("discard", name, size), True, sample={"history": ["build %s(datain %d bytes)" % (name, size), "keep .datain, drop the command", "build another"]} if ctx.want_sample() else None)
+            ctx.count("discarded_buffer_histories")
+            try:
+                held = []
+                for i in range(6):
+                    cmd = harness.construct(c, c.sets[0], dict(a))
+                    buf = cmd.datain
+                    for j in range(0, len(buf), max(1, len(buf) // 64)):
+                        buf[j] = (i * 37 + j) & 0xFF or 1
+                    held.append((buf, bytes(buf)))
+                    del cmd
+                    gc.collect()
+                ids = {id(b) for b, _ in held}
+                if len(ids) != len(held):
+                    ctx.fail("C09:discarded.buffer_handed_to_later_command", "%s: the data-in buffer of a discarded command was handed to a later command (size %d)" % (name, size), {"cmd": name, "size": size})
+                elif any(bytes(b) != snap for b, snap in held):
+                    ctx.fail("C09:discarded.kept_buffer_changed", "%s: a kept data-in buffer changed when later commands were built (size %d)" % (name, size), {"cmd": name, "size": size})
+            except Exception as e:  # noqa: BLE001
+                ctx.fail("C09:discarded.raises.%s" % type(e).__name__, "history raised %s" % e, {"cmd": name, "size": size}, exc=e)
 
 
 def alias_checks(ctx, S):
@@ -314,6 +442,50 @@ def one_schedule(ctx, S, sch, progs, sched, base, args, count=True):
     return r
 
 
+def cold_runs(ctx, shard):
+    """single-preemption schedules, each in a fresh interpreter, so that first-use races are reachable"""
+    import json
+    import os
+    import subprocess
+    import sys
+
+    env = dict(os.environ)
+    for A, B in shard["pairs"]:
+        n0 = None
+        k = 1
+        step = 1
+        while True:
+            spec = {"progs": [A, B], "salts": [100, 101], "schedule": {str(k): 1}}
+            try:
+                p = subprocess.run([sys.executable, "-B", "-m", "vmon.cold", json.dumps(spec)], env=env, stdout=subprocess.PIPE, stderr=subprocess.PIPE, timeout=120)
+            except subprocess.TimeoutExpired:
+                ctx.inconclusive_because("cold run watchdog fired for %r" % spec)
+                break
+            if p.returncode != 0:
+                ctx.inconclusive_because("cold run failed to start: %s" % p.stderr.decode(errors="replace")[-300:])
+                break
+            r = json.loads(p.stdout.decode().strip().splitlines()[-1])
+            wit = {"programs": [A, B], "schedule": spec["schedule"], "fresh_interpreter": True}
+            ctx.case(("cold", A, B, k), r["interleaved"], sample=dict(wit, steps=r["steps"]) if ctx.want_sample() else None)
+            ctx.count("cold_start_runs")
+            if r["interleaved"]:
+                ctx.count("interleavings_distinct_from_serial")
+            if r["hung"]:
+                ctx.inconclusive_because("cold run: scheduler watchdog fired for %r" % spec)
+                break
+            for t in r["threads"]:
+                if t.get("error"):
+                    ctx.fail("C09:cold_start.thread_raises.%s" % t["error"].split(":")[0], "first use of %s in a fresh interpreter, preempted at step %d: %s" % (t["prog"], k, t["error"]), wit)
+                elif t.get("differs"):
+                    ctx.fail("C09:cold_start.%s_differs_from_solo" % t["differs"][0], "first use of %s in a fresh interpreter, preempted at step %d: %s differ" % (t["prog"], k, t["differs"]), wit)
+            if n0 is None:
+                n0 = r["per_thread"][0]
+                step = max(1, n0 // shard["points"])
+            k += step
+            if k > n0:
+                break
+
+
 def stress(ctx, S, shard, base, args):
     import sys
     import threading
@@ -352,7 +524,7 @@ def stress(ctx, S, shard, base, args):
 
 def finalize(merged, tier):
     c = merged["counters"]
-    for k in ("sequential_histories", "scheduled_runs", "interleavings_distinct_from_serial", "reuse_histories"):
+    for k in ("sequential_histories", "scheduled_runs", "interleavings_distinct_from_serial", "reuse_histories", "cold_start_runs", "discarded_buffer_histories"):
         if c.get(k, 0) == 0:
             merged["inconclusive"].append("monitor never reached: %s" % k)
     return {"distinct_interleavings": c.get("interleavings_distinct_from_serial", 0)}
